@@ -499,7 +499,33 @@ func c17Sibling(c *Ctx, p *Prog) {
 	}
 	named := obj.Type().(*types.Named)
 	st := named.Underlying().(*types.Struct)
-	c.Check("C17.S", "cachingStore:stateless", p, obj.Pos(), st.NumFields() == 1 && objName(st.Field(0)) == "BackingStore", "cachingStore has the single field BackingStore: no in-process state (memo, map) can shadow the authoritative store", fmt.Sprintf("cachingStore has %d fields: in-process state can return stale access/routing decisions", st.NumFields()))
+	// the store it wraps, plus at most plain configuration values (numbers, strings, booleans)
+	// that only its constructor writes: nothing that can remember an answer
+	stateful := ""
+	hasBacking := false
+	for k := 0; k < st.NumFields(); k++ {
+		f := st.Field(k)
+		if objName(f) == "BackingStore" {
+			hasBacking = true
+			continue
+		}
+		if _, isBasic := f.Type().Underlying().(*types.Basic); !isBasic {
+			stateful = "field " + f.Name() + " of type " + f.Type().String() + " can hold state"
+			continue
+		}
+		for _, fn := range p.AllFuncsIn("app/cache") {
+			EachInstrRaw(fn, func(i ssa.Instruction) {
+				if stt, isSt := i.(*ssa.Store); isSt {
+					if fa, isFA := stt.Addr.(*ssa.FieldAddr); isFA && NamedTypeRel(fa.X.Type()) == "app/cache.cachingStore" && fieldName(fa.X.Type(), fa.Field) == objName(f) {
+						if al, isAl := fa.X.(*ssa.Alloc); !isAl || al.Parent() != fn || fn.Signature.Recv() != nil {
+							stateful = "field " + f.Name() + " is written at " + p.Pos(stt.Pos()) + ", outside the literal that creates the store"
+						}
+					}
+				}
+			})
+		}
+	}
+	c.Check("C17.S", "cachingStore:stateless", p, obj.Pos(), hasBacking && stateful == "", "cachingStore holds the store it wraps and at most constant configuration: no in-process state (memo, map) can shadow the authoritative store", fmt.Sprintf("cachingStore has %d fields (%s): in-process state can return stale access/routing decisions", st.NumFields(), stateful))
 	iface := tp.Types.Scope().Lookup("Store").Type().Underlying().(*types.Interface)
 	pure := map[string]bool{"IsBackendUserAllowed": true, "LookupBackend": true, "AddBackend": true, "ListBackends": true, "DeleteBackend": true, "DeleteOldBackends": true, "DeleteOldRequests": true, "ListPendingRequests": true}
 	for k := 0; k < iface.NumMethods(); k++ {
